@@ -173,8 +173,13 @@ def compare_world(scn, k, c, m):
     want_post = [p for p in m["callbacks"] if p in has_post]
     if pre != want_pre:
         cf("callbacks.pre", want_pre, pre)
+        if sorted(pre) != sorted(want_pre):
+            # the model's callback set is the Spec's (theorem C17.callback_iff): once on every random composite
+            of("callback-pre-not-exactly-once-per-random-object", {"pre": pre}, {"pre": want_pre})
     if c["outcome"] == "ok" and post != want_post:
         cf("callbacks.post", want_post, post)
+        if sorted(post) != sorted(want_post):
+            of("callback-post-not-exactly-once-per-random-object", {"post": post}, {"post": want_post})
     # Spec for callbacks: exactly once per random composite (root included), none otherwise
     if len(set(pre)) != len(pre) or (c["outcome"] == "ok" and len(set(post)) != len(post)):
         of("callback-more-than-once", {"pre": pre, "post": post}, "each callback at most once per call")
